@@ -18,3 +18,7 @@ add("C05", "runtime monitor: strict CRLF line splitter over messages serialised 
     "Held on the executions produced: for every header-writing entry point found by reflection on RequestHeader, ResponseHeader, Trailer, Cookie, Request and the RequestContext helpers, with payloads placing CR, LF, CRLF, NUL, colon, SP and a marker field in every string position, the serialised head/trailer had no surviving CR/LF, no marker line, no colon-less line and no more non-automatic lines than calls made. Thorough enumerates all 7380 token sequences per entry point.",
     "Trusted: the line oracle; entry-point filter (name prefixes and an exclusion list printed in the evidence notes).",
     "DESIGN.md §4 C05")
+add("C06", "runtime monitor: which-handler/params/FullPath recorder through Engine.ServeHTTP compared with an independent character-trie DFS matcher, over all registration orders of small sets",
+    "Held on the executions produced: for every accepted route set (exhaustive pairs and triples of a depth<=2 universe, random larger sets with mid-segment params and catch-alls), every tried registration order, engine option combination and probe path/method, the handler that ran, its parameters and FullPath equal the reference matcher's answer, and no route handler ran when the reference finds no match.",
+    "Trusted: the reference matcher (documented priority stated operationally); probes are kept in URI-normal form (no '//').",
+    "DESIGN.md §4 C06")
